@@ -140,7 +140,12 @@ def create_parser(lexer):
         # Use private temporary directory
         # to mitigate RPLY's insecure use of /tmp:
         # CVE-2014-1604, CVE-2014-1938
-        return pg.build()
+        try:
+            return pg.build()
+        except FileExistsError:
+            # Another process (e.g. another worker of "i18nspector -j N")
+            # has just created RPLY's cache directory.
+            return pg.build()
 
 class Parser:
 
